@@ -2,7 +2,8 @@
 
 Generator: arrival schedules the harness owns: timeout T in {0.15, 0.25, 0.4} s; k in 0..8 well-formed non-matching
 datagrams (wrong request-id / community / msgID) at offsets with gaps < T spread over (0, 2T); optionally the matching
-reply before (0.2T..0.7T) or after (1.3T..2T) the deadline; x {sync, async} x {v1, v2c, v3}.  Schedules run in parallel
+reply before (0.2T..0.7T) or after (1.3T..2T) the deadline; x {sync, async} x {v1, v2c, v3, v3d = v3 session that
+has to discover its engine id: first call refresh(), strays = Reports of a foreign engine for another msgID}.  Schedules run in parallel
 worker processes (one schedule per process at a time).
 Oracle: a matching reply that arrives before T is delivered; otherwise TimeoutError after at most T + slack
 (slack = max(0.12 s, 0.5 T)).  This is the one property whose oracle reads the wall clock: a suspected violation is re-run twice
@@ -326,7 +327,7 @@ def run(rep, tier):
     from vlib import build
     pkg = build.ensure_ext()
     rep.rule = ("Hypothesis-generated batch of arrival schedules (T in {0.15,0.25,0.4}s; 0..8 non-matching datagrams with gaps 0.25T..0.8T; "
-                "matching reply none / early (0.2T..0.7T) / late (1.3T..2T)) x sync/async x v1/v2c/v3, run in 16 worker processes. "
+                "matching reply none / early (0.2T..0.7T) / late (1.3T..2T)) x sync/async x v1/v2c/v3/v3 with engine-id discovery (first call = refresh() on a session without engine id; strays there are Reports of a foreign engine for another msgID), run in 16 worker processes. "
                 "Each schedule is 1..3 consecutive calls on one session. Non-trivial = a call with >=2 strays and no timely matching reply, or a multi-call schedule; distinct by schedule.")
     rep.assumptions = ["wall-clock oracle with slack max(0.12s, 0.5T); an overrun must reproduce in two isolated re-runs to be reported",
                        "loopback latency is negligible against the 150..400 ms timeouts"]
